@@ -482,6 +482,21 @@ func runC06(c *eng.Ctx) {
 				}}
 				if q.Find() != nil {
 					applied = ir.FuncKey(fn)
+					// … whatever else is true: every successful return of the loader has looked at the flag (a test that is
+					// itself behind another condition — `recovered && …` — skips the flag when a live operation, resume after
+					// a pause, rebuilds the partition)
+					both := append(append([]eng.Edge{}, tests...), eng.BoolEdges(fn, func(v ssa.Value) bool {
+						f, _ := eng.FieldRead(v)
+						return f != nil && f.Name() == flag && f.Pkg() != nil && strings.HasSuffix(f.Pkg().Path(), "server/protocol")
+					}, false)...)
+					for _, r := range eng.Returns(fn) {
+						rv := eng.RetVals(r)
+						if len(rv) == 0 || !eng.NilConst(rv[len(rv)-1]) {
+							continue
+						}
+						g, w := eng.GuardedBy(fn, r, both)
+						c.Check(g, "persisted flag Partition."+flag+" is looked at on every path through "+ir.FuncKey(fn), c.Pos(r), "the test of the flag is not behind another condition", "a partition can be built without the persisted "+strings.ToLower(flag)+" flag having been looked at (path "+w.String()+"): the flag is re-applied only under another condition (recovery), so a partition that a live operation rebuilds — resume after a pause — comes back without it while a restored server keeps it")
+					}
 				}
 			}
 			if flag == "Readonly" && applied != "" && applied != "server.(*Server).newPartition" {
